@@ -11,7 +11,7 @@ from lib import Report, qlit, qseq, seqseq
 from exact import PS, Cx
 
 PID = 'C07'
-IMPORTS = 'QcField Sums Series Matrix'
+IMPORTS = 'QcField Sums Series Matrix Logdet'
 DEFS = """
 Definition mxs_close (tol : Qc) (n m : nat) (a b : seq (mx K)) : bool :=
   (size a == size b) && all (fun ab => Qc_allclose tol (flatten (mkmx n m (mxget ab.1))) (flatten (mkmx n m (mxget ab.2)))) (zip a b).
@@ -113,7 +113,17 @@ def main(tier, seed):
         mix = rng.choice(['UU', 'UU', 'Ua', 'aU'])
         xd = numpy.array([dy(rng) for _ in range(D * P * int(numpy.prod(xs)))]).reshape((D, P) + xs)
         yd = numpy.array([dy(rng) for _ in range(D * P * int(numpy.prod(ys)))]).reshape((D, P) + ys)
+        # sparsity in the coefficient index: whole coefficient blocks that vanish (A(t) = A_0 + A_2 t^2, a zero base point, ...),
+        # per direction, on either operand
+        sparse = rng.random() < 0.4
+        if sparse:
+            for arr in (xd, yd):
+                for p in range(P):
+                    for d in range(D):
+                        if rng.random() < 0.45:
+                            arr[d, p] = 0
         xc = xd[0, 0].copy(); yc = yd[0, 0].copy()
+        rep.count('dot:zero coefficient blocks', sparse)
         meta = dict(op='dot', mix=mix, D=D, P=P, x_shape=list(xs), y_shape=list(ys))
         note_case('dot:' + mix, dict(meta, x=xd.tolist() if mix != 'aU' else xc.tolist(), y=yd.tolist() if mix != 'Ua' else yc.tolist()), D >= 2)
         try:
@@ -251,6 +261,16 @@ def main(tier, seed):
             why = exact.compare(dt, ref, F(rtol) * F(scale) ** n)
             if why:
                 rep.violation('det', 'det differs from the Leibniz determinant in series arithmetic: %s (n=%d)' % (why, n), dict(kind='det', case=meta))
+            else:
+                # the proved model (C07_detU_luU_is_det): LU recurrence with the base factors of scipy.linalg.lu_factor, then sgn * prod diag U
+                for p in range(P):
+                    lu_, piv = scipy.linalg.lu_factor(Ad[0, p])
+                    w = algopy.utils.piv2mat(piv); sgn = float(algopy.utils.piv2det(piv))
+                    l0 = numpy.tril(lu_, -1) + numpy.eye(n); u0 = numpy.triu(lu_)
+                    LU = '(luU %d %s %s %s %s %s %s)' % (n, mxlit(w.T), serlit(Ad, p), mxlit(l0), mxlit(u0), mxlit(numpy.linalg.inv(l0)), mxlit(numpy.linalg.inv(u0)))
+                    terms.append('(Qc_allclose %s (detU %d %s [seq lu.2 | lu <- %s]) %s)'
+                                 % (qlit(F(rtol) * F(scale) ** n), n, qlit(lib.frac(sgn)), LU, lib.qseq([lib.frac(v) for v in dt[:, p]])))
+                    metas.append(dict(op='det', n=n, D=D, direction=p, model='detU'))
             neg = any(numpy.linalg.det(b) < 0 for b in bases)
             note_case('logdet', dict(op='logdet', negative_base_det=neg, **meta), D >= 2 and n >= 2)
             ld = numpy.asarray(algopy.logdet(UTPM(Ad.copy())).data)
@@ -271,6 +291,18 @@ def main(tier, seed):
                     break
             if bad:
                 rep.violation('logdet:negative-det' if neg else 'logdet', 'logdet: %s (n=%d)' % (bad, n), dict(kind='logdet', case=meta, negative_base_det=neg))
+            else:
+                # the proved model (C07_logdetU_luU_spec): LU recurrence, then sum_i log|u_ii| with the base values NumPy returns
+                for p in range(P):
+                    lu_, piv = scipy.linalg.lu_factor(Ad[0, p])
+                    w = algopy.utils.piv2mat(piv)
+                    l0 = numpy.tril(lu_, -1) + numpy.eye(n); u0 = numpy.triu(lu_)
+                    du0 = numpy.diagonal(u0)
+                    LU = '(luU %d %s %s %s %s %s %s)' % (n, mxlit(w.T), serlit(Ad, p), mxlit(l0), mxlit(u0), mxlit(numpy.linalg.inv(l0)), mxlit(numpy.linalg.inv(u0)))
+                    terms.append('(Qc_allclose %s (logdetU %d [seq lu.2 | lu <- %s] %s %s %s) %s)'
+                                 % (qlit(F(rtol) * F(scale) ** n * 8), n, LU, lib.qseq([lib.frac(v) for v in numpy.sign(du0)]), lib.qseq([lib.frac(v) for v in numpy.abs(du0)]),
+                                    lib.qseq([lib.frac(v) for v in numpy.log(numpy.abs(du0))]), lib.qseq([lib.frac(v) for v in ld[:, p]])))
+                    metas.append(dict(op='logdet', n=n, D=D, direction=p, model='logdetU'))
         except Exception as e:
             rep.violation('det:exception:%s' % type(e).__name__, 'det/logdet raises %r (n=%d)' % (e, n), dict(kind='det', case=meta, exc=repr(e)))
 
